@@ -35,6 +35,7 @@ RULE += (' Also: managers whose exit is a staticmethod / classmethod.')
 RULE += (' Also: callbacks (plain and async def) registered without any arguments and returning a true value; plain callbacks handing back a future-like (non-coroutine) awaitable.')
 RULE += (' Also: exit-only objects (no matching enter) pushed, also callable ones.')
 RULE += (' Also: a synchronous exit raising StopIteration, against nested statements written in one frame.')
+RULE += (" Also: subclasses of the library's nullcontext that override their exit.")
 ASSUMPTIONS = ["nested async with/with statements of the running interpreter are the reference for routing",
                "__context__ chains are not compared"]
 EXHAUSTIVE_SUBSPACES = 'all 16842 stacks of <= 3 entries x block outcome; all histories of length <= 4 (thorough: 5) over 8 operations'
@@ -56,7 +57,9 @@ KINDS_EXTRA = KINDS + ["dualcm", "dualpush", "scmpush", "acmpush",
                        "cb0", "acb0",
                        # a plain callable handing back an awaitable that is NOT a coroutine (a future-like job object):
                        # an asynchronous callback like any other - its job is awaited when the stack unwinds
-                       "wcb", "wcb"]  # ...push: a manager object pushed, never entered
+                       "wcb", "wcb",
+                       # a subclass of the library's own nullcontext that overrides its exit: a manager like any other
+                       "nullsub", "nullsub"]  # ...push: a manager object pushed, never entered
 BEHS = ["falsy", "truthy", "raise", "raise_if_exc"]
 # sampled in addition to the enumerated behaviours: exits that raise a BaseException which is not an Exception
 BEHS_EXTRA = BEHS + ["raise_base", "raise_base_if_exc", "reraise_same", "reraise_same",
@@ -314,6 +317,18 @@ def mk_entry(kind, beh, i, log, susp, choice, shared=None):
             def __exit__(cls, et, ev, tb):
                 return exit_logic(et, ev, tb)
         return ClassExitSCM()
+    if kind == "nullsub":
+        class Tracing(A.nullcontext):
+            async def __aenter__(self):
+                log.append(("enter", i))
+                return EnterValue(i)
+
+            async def __aexit__(self, et, ev, tb):
+                if susp:
+                    await Suspend(("exit", i), susp)
+                return exit_logic(et, ev, tb)
+
+        return Tracing()
     if kind in ("acm", "acmpush"):
         return ACM()
     if kind in ("scm", "scmpush"):
@@ -406,7 +421,7 @@ def run_stack(case, stats):
             return
         k, _ = spec[i]
         e = ents[i]
-        if k in ("acm", "dualcm", "staticacm"):
+        if k in ("acm", "dualcm", "staticacm", "nullsub"):
             async with e as v:
                 l1.append(("value", v))
                 await nest(i + 1)
@@ -512,7 +527,7 @@ def run_stack(case, stats):
         async with A.ExitStack() as s:
             for i, (k, _) in enumerate(spec):
                 e = ents2[i]
-                if k in ("acm", "scm", "dualcm", "staticacm", "classscm"):
+                if k in ("acm", "scm", "dualcm", "staticacm", "classscm", "nullsub"):
                     v = await s.enter_context(e)
                     l2.append(("value", v))
                 elif k in ("apush", "wpush", "spush", "dualpush", "scmpush", "acmpush", "xaexit", "xexit", "xexit_callable"):
